@@ -324,9 +324,13 @@ func TestScoutTypedNilPanics(t *testing.T) {
 	}
 }
 
-// TestVerifReplay: the reproducer of the repaired defect (a reason code outside the closed set went out verbatim) and the scout's passing sweeps of the status mapping and the chain; the TestScoutPkcePage* and TestScoutTypedNilPanics functions reproduce findings that are not repaired and are not run
+// TestVerifReplay: the reproducers of the repaired defects (a reason code outside the closed set went out verbatim; the PKCE page routes answered every authenticator error 401 / 302 / empty 200) and the scout's passing sweeps of the status mapping and the chain; TestScoutTypedNilPanics reproduces a finding that is not repaired and is not run
 func TestVerifReplay(t *testing.T) {
 	t.Run("TestScoutSanityMatrixRpcRoute", TestScoutSanityMatrixRpcRoute)
 	t.Run("TestScoutSanityChain", TestScoutSanityChain)
 	t.Run("TestScoutReasonOutsideClosedSet", TestScoutReasonOutsideClosedSet)
+	t.Run("TestScoutPkcePageUnavailableIs503", TestScoutPkcePageUnavailableIs503)
+	t.Run("TestScoutPkcePageInternalErrorIs500", TestScoutPkcePageInternalErrorIs500)
+	t.Run("TestScoutPkcePageRejectionHasReasonAndNoStore", TestScoutPkcePageRejectionHasReasonAndNoStore)
+	t.Run("TestScoutPkcePageRejectionWithDiscoveryDownIs401", TestScoutPkcePageRejectionWithDiscoveryDownIs401)
 }
